@@ -10,7 +10,24 @@ use crate::p_escape::hex;
 use crate::rng::Rng;
 
 #[derive(Clone, Debug)]
-pub enum Re { Eps, Chr(char), Any, Cls(bool, Vec<char>), Seq(Box<Re>, Box<Re>), Alt(Box<Re>, Box<Re>), Star(Box<Re>) }
+pub enum Re { Eps, Chr(char), Any, Cls(bool, Vec<char>), Seq(Box<Re>, Box<Re>), Alt(Box<Re>, Box<Re>), Star(Box<Re>), Rep(Box<Re>, u32, Option<u32>) }
+
+/// counted repetition `{n}`, `{n,m}`, `{n,}` as it is written
+fn counted(n: u32, max: Option<u32>) -> String { match max { Some(m) if m == n => format!("{{{}}}", n), Some(m) => format!("{{{},{}}}", n, m), None => format!("{{{},}}", n) } }
+/// .. and what it stands for: n copies, then optional copies or a star
+fn desugar(r: &Re) -> Re {
+    match r {
+        Re::Rep(a, n, max) => {
+            let a = desugar(a);
+            let mut items: Vec<Re> = (0..*n).map(|_| a.clone()).collect();
+            match max { None => items.push(Re::Star(Box::new(a.clone()))), Some(m) => for _ in *n..*m { items.push(Re::Alt(Box::new(a.clone()), Box::new(Re::Eps))) } }
+            let mut it = items.into_iter();
+            match it.next() { None => Re::Eps, Some(first) => it.fold(first, |acc, x| Re::Seq(Box::new(acc), Box::new(x))) }
+        }
+        Re::Seq(a, b) => Re::Seq(Box::new(desugar(a)), Box::new(desugar(b))), Re::Alt(a, b) => Re::Alt(Box::new(desugar(a)), Box::new(desugar(b))),
+        Re::Star(a) => Re::Star(Box::new(desugar(a))), x => x.clone(),
+    }
+}
 
 const ALPHA: [char; 8] = ['a', 'b', 'c', '.', '|', '*', 'é', ' '];
 fn is_meta(c: char) -> bool { "\\.+*?()|[]{}^$#&-~".contains(c) }
@@ -22,6 +39,7 @@ fn print(r: &Re) -> String {
         Re::Seq(a, b) => format!("{}{}", print(a), print(b)),
         Re::Alt(a, b) => format!("(?:{}|{})", print(a), print(b)),
         Re::Star(a) => format!("(?:{})*", print(a)),
+        Re::Rep(a, n, max) => format!("(?:{}){}", print(a), counted(*n, *max)),
     }
 }
 fn lit_user(c: char) -> String { if c == ']' { c.to_string() } else { lit(c) } }
@@ -33,6 +51,7 @@ fn print_user(r: &Re) -> String {
         Re::Seq(a, b) => format!("{}{}", print_user(a), print_user(b)),
         Re::Alt(a, b) => format!("(?:{}|{})", print_user(a), print_user(b)),
         Re::Star(a) => format!("(?:{})*", print_user(a)),
+        Re::Rep(a, n, max) => match **a { Re::Chr(_) | Re::Cls(..) | Re::Any => format!("{}{}", print_user(a), counted(*n, *max)), _ => format!("(?:{}){}", print_user(a), counted(*n, *max)) },
         _ => print(r),
     }
 }
@@ -42,6 +61,9 @@ fn ser(r: &Re) -> String {
         Re::Eps => "e".into(), Re::Chr(c) => format!("c{}", *c as u32), Re::Any => ".".into(),
         Re::Cls(neg, cs) => format!("k{}{}", *neg as u8, cs.iter().map(|c| format!(",{}", *c as u32)).collect::<String>()),
         Re::Seq(a, b) => format!("s {} {}", ser(a), ser(b)), Re::Alt(a, b) => format!("a {} {}", ser(a), ser(b)), Re::Star(a) => format!("* {}", ser(a)),
+        // zero copies: the empty word -- written so that the repeated item stays visible in the tree (z = matches nothing)
+        Re::Rep(a, 0, Some(0)) => format!("a e s {} z", ser(a)),
+        Re::Rep(..) => ser(&desugar(r)),
     }
 }
 fn gen_re(r: &mut Rng, depth: u32) -> Re {
@@ -63,6 +85,7 @@ fn sample(r: &mut Rng, re: &Re, out: &mut String) {
         Re::Seq(a, b) => { sample(r, a, out); sample(r, b, out); }
         Re::Alt(a, b) => if r.chance(1, 2) { sample(r, a, out) } else { sample(r, b, out) },
         Re::Star(a) => for _ in 0..r.below(3) { sample(r, a, out) },
+        Re::Rep(a, n, max) => { let extra = match max { None => r.below(3) as u32, Some(m) => r.below((*m - *n + 1) as u64) as u32 }; for _ in 0..(*n + extra) { sample(r, a, out) } }
     }
 }
 fn mutate(r: &mut Rng, s: &str) -> String {
@@ -102,6 +125,14 @@ pub fn main(args: &[String], w: &mut dyn Write) {
                     _ => Re::Star(Box::new(Re::Chr(*r.pick(&['a', 'b', ']'])))),
                 });
             }
+            // counted repetition of one item: `{n}`, `{n,m}`, `{n,}` (serialised as the sequence it stands for)
+            let counted_item = r.chance(1, 3);
+            if counted_item {
+                let j = r.below(items.len() as u64) as usize;
+                let lo = r.below(4) as u32;
+                let max = match r.below(3) { 0 => None, 1 => Some(lo), _ => Some(lo + 1 + r.below(2) as u32) };
+                items[j] = Re::Rep(Box::new(items[j].clone()), lo, max);
+            }
             let mut it = items.into_iter();
             let mut re = it.next().unwrap();
             for x in it { re = Re::Seq(Box::new(re), Box::new(x)); }
@@ -113,13 +144,13 @@ pub fn main(args: &[String], w: &mut dyn Write) {
             let nl = r.chance(3, 4);
             let mut line = s.clone().into_bytes(); if nl { line.push(b'\n'); }
             let res = matches(&mk, &format!("{} (regex)", top), &line);
-            writeln!(w, "M u {}|{}|{} {}|{}", ser(&re), hex(top.as_bytes()), hex(s.as_bytes()), nl as u8, res).unwrap();
+            writeln!(w, "M {} {}|{}|{} {}|{}", if counted_item { 'k' } else { 'u' }, ser(&re), hex(top.as_bytes()), hex(s.as_bytes()), nl as u8, res).unwrap();
             continue;
         }
         if i % 8 == 7 {
             // what RegexRule::make turns an arbitrary expression into before the crate sees it (unmake returns the prepared expression)
             let e = rand_str(&mut r, &['a', 'b', '\\', '{', '}', '[', ']', '<', '>', '1', '2', ',', '(', ')', '|', '.', '*', '+', '?', '^', '-', '#', '_', ' '], 10);
-            let e = if r.chance(1, 8) { r.pick(&["a<<<<3>>>>", "<<<<x>>>>b", "x<<<<1,2>>>>", "\\{3}", "a{1{2}", "\\\\{2}", "<<<<>>>>", "a{2}<<<<3>>>>{x}"]).to_string() } else { e };
+            let e = if r.chance(1, 8) { r.pick(&["a<<<<3>>>>", "<<<<x>>>>b", "x<<<<1,2>>>>", "\\{3}", "a{1{2}", "\\\\{2}", "<<<<>>>>", "a{2}<<<<3>>>>{x}", "a{3,}", "a{,3}", "b{2,}{", "\\{1,}", "a{1,}{2,3}{,}"]).to_string() } else { e };
             if e.ends_with(' ') { continue; }
             let res = match std::panic::catch_unwind(std::panic::AssertUnwindSafe(|| mk.parse(&format!("{} (regex)", e)).map(|x| x.unmake()))) {
                 Err(_) => "panic".to_string(), Ok(Err(_)) => "err".into(), Ok(Ok((_, b, _, _))) => format!("x{}", hex(&b)) };
